@@ -34,7 +34,7 @@ let page_of (rows : string list) : string Reader_ext.page =
 
 (* physical type id of a column type token *)
 let type_id t =
-  if t = "bool" then 0 else if t = "i32" then 1 else if t = "i64" then 2 else if t = "f32" then 4
+  if t = "bool" then 0 else if t = "i32" then 1 else if t = "i64" then 2 else if t = "i96" then 3 else if t = "f32" then 4
   else if t = "f64" then 5 else if t = "ba" then 6 else 7
 (* zero-copy eligibility of a chunk: codec UNCOMPRESSED, encoding PLAIN, type accepted by the regenerated rule *)
 let eligible codec plain t = codec = 0 && plain && Reader_ext.reader_zero_copy_type (nat_of_int (type_id t))
@@ -86,6 +86,8 @@ let handle toks =
        | Reader_ext.Fault f -> "MODEL-FAULT " ^ fault_name f)
   | ["bat"; mode; _verify; spec; bs; proj] ->
       let (codec, plain, cols, table) = parse_wspec spec in
+      (* "d": carquet_batch_reader_create(reader, NULL): carquet_batch_reader_config_init's batch size, all columns *)
+      let (bs, proj) = if bs = "d" then ("65536", "all") else (bs, proj) in
       let m = (match mode with "f" -> Reader_ext.Fread | "m" -> Reader_ext.Mmap | _ -> Reader_ext.Buffer) in
       let file = List.map (fun rg ->
         List.mapi (fun i ch ->
